@@ -7,7 +7,7 @@ CONSTANTS
   CrcModel = "atomic"
   IgnoreSigpipe = TRUE
   Cap = 2
-  Buffered = TRUE
+  Buffered = FALSE
   Gaps = "overlap"
   KeepData = TRUE
   ExternalProg <- NoExternal
